@@ -20,6 +20,12 @@ def check(model: Model, run: Run) -> None:
     from ..readerrules import lemma_no_deferred_loop_capture
     lemma_no_deferred_loop_capture(model, run, ("sansldap._messages", "sansldap._controls", "sansldap._filter", "sansldap._authentication", "sansldap.asn1"),
                                    "W18-no-deferred-capture-of-loop-variables", "elements of a repeated component are all decoded from (or encoded as) the last one")
+    from ..commonrules import memoised_results_are_immutable, no_memoised_views_of_fields
+    memoised_results_are_immutable(model, run, "W20-no-memoised-mutable-results", ("sansldap._messages", "sansldap._controls", "sansldap._filter", "sansldap._authentication", "sansldap.asn1"),
+                                   "octets or elements one message appended are part of the next message's encoding")
+    no_memoised_views_of_fields(model, run, "W21-nothing-derived-from-the-fields-is-memoised",
+                                [q for q, c in model.classes.items() if c.is_dataclass and c.module in ("sansldap._messages", "sansldap._controls", "sansldap._filter", "sansldap._authentication")],
+                                "what is encoded (or compared) is the object as it was when first asked, not as it is")
     from .c17 import hooks_store_fields_as_given
     wire = sorted(q for q, c in model.classes.items() if c.is_dataclass and c.module in ("sansldap._messages", "sansldap._controls", "sansldap._filter", "sansldap._authentication"))
     hooks_store_fields_as_given(model, run, wire, "W17-fields-held-as-given",
@@ -419,6 +425,45 @@ def purity(model: Model, run: Run, ex) -> None:
             run.ob("W13-writers-are-pure", bad is None, {"method": fi.qualname.split("sansldap.")[-1]})
             if bad:
                 run.fail(Finding("W13-writers-are-pure", fi.qualname, bad[:80], f"{fi.qualname.split('sansldap.')[-1]} is not a pure function of the message fields ({bad}): re-encoding need not reproduce the same bytes", model.loc(fi.module, fi.node)))
+            # W23: whether a field's component is written depends on the field - not, in addition, on an argument of the writer that is
+            # no part of the value (a flag the caller sets): the decoder sees the bytes only, and reads the omitted component as the
+            # field's default.  A flag that no caller ever sets away from a true default changes nothing and is let through.
+            a_ = fi.node.args
+            pos_ = a_.posonlyargs + a_.args
+            dfl_ = {p_.arg: d_ for p_, d_ in zip(pos_[len(pos_) - len(a_.defaults):], a_.defaults)}
+            dfl_.update({p_.arg: d_ for p_, d_ in zip(a_.kwonlyargs, a_.kw_defaults) if d_ is not None})
+            flags = [p_.arg for p_ in pos_ + a_.kwonlyargs if p_.arg not in ("self", "cls") and
+                     (p_.annotation is None or norm(p_.annotation).split(".")[-1] in ("bool", "t.Optional[bool]", "Optional[bool]"))]
+            for st_ in ast.walk(fi.node):
+                if not isinstance(st_, (ast.If, ast.IfExp)):
+                    continue
+                t_ = st_.test
+                if not (isinstance(t_, ast.BoolOp) and isinstance(t_.op, ast.And)):
+                    continue
+                on_field = any(isinstance(y, ast.Attribute) and isinstance(y.value, ast.Name) and y.value.id == "self" for v_ in t_.values for y in ast.walk(v_))
+                used = [v_.id for v_ in t_.values if isinstance(v_, ast.Name) and v_.id in flags] + \
+                       [v_.operand.id for v_ in t_.values if isinstance(v_, ast.UnaryOp) and isinstance(v_.op, ast.Not) and isinstance(v_.operand, ast.Name) and v_.operand.id in flags]
+                if not on_field or not used:
+                    continue
+                for fl_ in used:
+                    set_away = []
+                    for gq, g in model.functions.items():
+                        if isinstance(g.node, ast.Lambda):
+                            continue
+                        for c_ in ast.walk(g.node):
+                            if isinstance(c_, ast.Call):
+                                for k_ in c_.keywords:
+                                    if k_.arg == fl_ and not (isinstance(k_.value, ast.Constant) and isinstance(dfl_.get(fl_), ast.Constant) and k_.value.value == dfl_[fl_].value) \
+                                            and not (isinstance(k_.value, ast.Name) and k_.value.id == fl_):
+                                        set_away.append((g, c_, k_))
+                    ok_ = not set_away and isinstance(dfl_.get(fl_), ast.Constant)
+                    run.ob("W23-presence-depends-on-the-field-alone", ok_, {"method": fi.qualname.split("sansldap.")[-1], "flag": fl_})
+                    if not ok_:
+                        where_ = set_away[0] if set_away else None
+                        run.fail(Finding("W23-presence-depends-on-the-field-alone", fi.qualname, f"{norm(t_)[:60]}",
+                                         f"{fi.qualname.split('sansldap.')[-1]} writes a component only when `{norm(t_)[:60]}`: `{fl_}` is an argument, not part of the value" +
+                                         (f" ({where_[0].qualname.split('sansldap.')[-1]} passes `{fl_}={norm(where_[2].value)[:40]}`)" if where_ else "") +
+                                         ": with it false the field is left out whatever it holds, and the decoder reads the field's default back", model.loc(fi.module, st_)))
     run.floor("writer methods checked for purity", n, 25)
 
 
@@ -462,6 +507,40 @@ def post_decode_mutation(model: Model, run: Run) -> None:
                             if binds and t.value.id not in fi.params() and all(isinstance(b, ast.Call) and isinstance(b.func, ast.Attribute) and b.func.attr == "__new__" for b in binds):
                                 continue
                         n += 1
+                        root = t
+                        while isinstance(root, ast.Attribute):
+                            root = root.value
+                        if isinstance(root, ast.Name) and root.id in fi.params() and not any(isinstance(x, ast.Name) and x.id == root.id and isinstance(x.ctx, ast.Store)
+                                                                                              for x in walk_no_nested(fi.node)):
+                            # state of something the decoder was handed (its options): whatever a decode changes on the way in it puts back
+                            # on the way out, on every way out - the write is in a `finally`, or is followed by a `try` whose `finally`
+                            # writes the same attribute
+                            tgt = norm(t)
+
+                            def restored(stmts) -> bool:
+                                for i, st in enumerate(stmts):
+                                    if st is c:
+                                        return any(isinstance(nx, ast.Try) and any(isinstance(w, (ast.Assign, ast.AugAssign)) and
+                                                   any(norm(t2) == tgt for t2 in (w.targets if isinstance(w, ast.Assign) else [w.target]))
+                                                   for fb in nx.finalbody for w in ast.walk(fb)) for nx in stmts[i + 1:])
+                                    for fld in ("body", "orelse", "handlers"):
+                                        sub = getattr(st, fld, None)
+                                        if isinstance(sub, list):
+                                            blocks = [h.body for h in sub] if fld == "handlers" else [sub]
+                                            for b in blocks:
+                                                if any(x is c for y in b for x in ast.walk(y)):
+                                                    return restored(b)
+                                    fin = getattr(st, "finalbody", None)
+                                    if isinstance(fin, list) and any(x is c for y in fin for x in ast.walk(y)):
+                                        return True
+                                return False
+                            ok = restored(fi.node.body)
+                            run.ob("W22-decoding-leaves-its-options-as-found", ok, {"function": fi.name, "write": norm(c)[:60]})
+                            if not ok:
+                                run.fail(Finding("W22-decoding-leaves-its-options-as-found", fq, norm(c)[:80],
+                                                 f"{fi.name} changes `{tgt}` of an object it was handed and does not put it back in a `finally`: a decode that fails part-way leaves "
+                                                 "the options changed, and the next message - however ordinary - is decoded under different limits (or refused)", model.loc(fi.module, c)))
+                            continue
                         run.ob("W14-no-post-decode-mutation", False)
                         run.fail(Finding("W14-no-post-decode-mutation", fq, norm(c)[:80], f"{fi.name} assigns an attribute of a decoded value", model.loc(fi.module, c)))
     run.floor("post-decode setattr sites", n, 2)
